@@ -131,6 +131,11 @@ def outsOfWire (p : Peer) (t : Table) : List Op → List Out
     let r := stepWire t op
     if op.peer = p then r.2 :: outsOfWire p r.1 ops else outsOfWire p r.1 ops
 
+/-- the replies of a list of requests (each a list of operations) executed one after the other -/
+def seqReplies (t : Table) : List (List Op) → List (List Out)
+  | [] => []
+  | w :: ws => (run t w).2 :: seqReplies (run t w).1 ws
+
 /-! ### the seeded defect, for the sensitivity witness: purge by host only -/
 def stepHostOnly (t : Table) : Op → Table × Out
   | .fclose p serial => (t.filter (fun kv => !(decide (kv.1.peer.host = p.host) && decide (kv.2.serial = serial))), .closed)
